@@ -260,6 +260,76 @@ def parseOp (ws : List String) : Option Op :=
   | "manual" :: "dropsvc" :: _ => some .dropsvc
   | _ => none
 
+/-! ## how the caller obtains the handle it calls, and the readiness of the wrapped service
+
+`arrive c … via=<mode>`: `clone` (clone the template, ready the clone, call it), `readyclone` (ready the template,
+then clone it, ready the clone, call the clone), `swap` (ready the template, leave a fresh clone in its place, call
+the readied one), `template` (ready and call the template itself). `Chaos::poll_ready` (service.rs:50-52) is
+`self.inner.poll_ready(cx)` and nothing else, and `Chaos::call` (service.rs:54-58) takes the instance `poll_ready` was
+called on and leaves a fresh clone behind; the decision block belongs to the call FUTURE (first poll), which owns the
+instance it will call. So the mode matters for one thing only: how many `poll_ready` calls reach the wrapped service
+before the request is made (`Via.polls`) — each answered by the wrapped service alone (`gate`) — and the instance that
+is eventually called is one that reported ready. `Op.arrive` carries no mode: the machine, and with it every theorem
+about `run` / `stepS`, is the same for every caller mode of every request. -/
+
+inductive Via
+  | clone | readyclone | swap | template
+deriving DecidableEq, Repr, Inhabited
+
+/-- `poll_ready` calls the caller makes on the layer (each forwarded to the wrapped service) before `call` -/
+def Via.polls : Via → Nat
+  | .readyclone => 2
+  | _ => 1
+
+/-- one scripted readiness answer of the wrapped service (`Inner::strict`, header `ready=<script>`) -/
+inductive Rdy
+  | ready | pending | error
+deriving DecidableEq, Repr, Inhabited
+
+/-- `n` forwarded `poll_ready` calls against the script of the wrapped service; the caller gives up at the first
+answer that is not "ready" (an exhausted script answers "ready"): admitted?, script left -/
+def gateN : Nat → List Rdy → Bool × List Rdy
+  | 0, sc => (true, sc)
+  | _ + 1, [] => (true, [])
+  | n + 1, .ready :: sc => gateN n sc
+  | _ + 1, _ :: sc => (false, sc)
+
+def gate (v : Via) (sc : List Rdy) : Bool × List Rdy := gateN v.polls sc
+
+def parseVia (s : String) (dflt : Via) : Via :=
+  if s = "clone" then .clone else if s = "readyclone" then .readyclone
+  else if s = "swap" then .swap else if s = "template" then .template else dflt
+
+/-- `ready=rpe…`: r ready, p pending, e error (anything else: ready) -/
+def parseReady (s : String) : List Rdy :=
+  s.toList.map fun ch => if ch = 'p' then .pending else if ch = 'e' then .error else .ready
+
+/-- state of the line protocol around the machine: is the wrapped service the strict scripted one (header
+`ready=`), what is left of its script, the caller's default mode, the tags of the requests made (the strict
+service logs the tag with every call) -/
+structure Proto where
+  strict : Bool
+  script : List Rdy
+  dflt   : Via
+  tags   : List (Nat × Nat) := []
+deriving Repr
+
+/-- the strict service logs the request's tag and whether the instance called had reported ready — always, here -/
+def Proto.toEv (p : Proto) : Ev → Ev
+  | .innerCall c k => if p.strict then .innerCallX c k ((lookup p.tags c).getD c) true else .innerCall c k
+  | e => e
+
+/-- An arrival in caller mode `v`: the `poll_ready` calls of the mode go to the wrapped service (`gate`); refused ⇒
+`result c notready`, no request is made and the machine is not touched; admitted ⇒ the machine's `arrive` — the
+same for every mode. -/
+def arriveVia (cfg : Cfg) (p : Proto) (s : State) (v : Via) (c tag : Nat) (st : Step) : Proto × State × List Ev :=
+  let g := gate v p.script
+  if g.1 then
+    let p' := { p with script := g.2, tags := (c, tag) :: p.tags }
+    let s' := stepS cfg s (.arrive c tag st)
+    (p', s', (s'.log.drop s.log.length).map p'.toEv)
+  else ({ p with script := g.2 }, s, [.result c .notReady])
+
 /-- thresholds reported by the harness on this line, if any -/
 def withThresholds (cfg : Cfg) (kv : Kv) : Cfg :=
   match kv.optNat "@eT", kv.optNat "@lT" with
@@ -269,27 +339,33 @@ def withThresholds (cfg : Cfg) (kv : Kv) : Cfg :=
 /-- The rates reach the model as thresholds reported by the harness (decoded from the bits of
 the `f64`s it gave to the builder): on `probe cfg @eT=… @lT=…` and again with every first poll.
 The bounds come from the header in microseconds and are truncated to milliseconds like
-`Duration::as_millis`. -/
+`Duration::as_millis`. An `arrive` (the driver hands over first arrivals only, and none after `dropsvc`) first
+passes the readiness gate of its caller mode: refused ⇒ `result c notready` and no request (the operation is not
+part of the run); admitted ⇒ the machine's `arrive`. -/
 def machine : Machine where
-  σ := Cfg × State
+  σ := Proto × Cfg × State
   init kv :=
     let cfg : Cfg := { eT := 0, lT := 0, minMs := kv.nat "min_us" 0 / 1000, maxMs := kv.nat "max_us" 0 / 1000 }
-    (cfg, init)
-  step := fun (cfg0, s) ws =>
+    ({ strict := (kv.get "ready").isSome, script := parseReady (kv.str "ready" ""),
+       dflt := if kv.nat "handles" 0 = 0 then .clone else .template }, cfg, init)
+  step := fun (p, cfg0, s) ws =>
     let cfg := withThresholds cfg0 (parseKv ws)
     match ws with
     | "probe" :: "cfg" :: _ =>
         let s' := emit s [.probe s!"cfg eT={cfg.eT} lT={cfg.lT}"]
-        ((cfg, s'), s'.log.drop s.log.length)
+        ((p, cfg, s'), s'.log.drop s.log.length)
     | "manual" :: "stress" :: rest =>
         -- a separate, freshly seeded instance: the requests of the case proper are not affected
         let kv := parseKv rest
         let s' := emit s [.raw (stressLine cfg (kv.nat "calls" 1000) (parseTally kv))]
-        ((cfg, s'), s'.log.drop s.log.length)
+        ((p, cfg, s'), s'.log.drop s.log.length)
     | _ =>
       match parseOp ws with
-      | some op => let s' := stepS cfg s op; ((cfg, s'), s'.log.drop s.log.length)
-      | none => ((cfg, s), [])
-  now := fun (_, s) => s.now
+      | some (.arrive c tag st) =>
+          let r := arriveVia cfg p s (parseVia ((parseKv ws).str "via" "") p.dflt) c tag st
+          ((r.1, cfg, r.2.1), r.2.2)
+      | some op => let s' := stepS cfg s op; ((p, cfg, s'), (s'.log.drop s.log.length).map p.toEv)
+      | none => ((p, cfg, s), [])
+  now := fun (_, _, s) => s.now
 
 end TR.Chaos
